@@ -40,6 +40,8 @@ FLAVORS = {
     "clang-asan": ("clang++", "-std=c++17 -O1 -g -fno-omit-frame-pointer -fsanitize=address,undefined "
                               "-fno-sanitize=object-size -fno-sanitize-recover=all -D_GLIBCXX_ASSERTIONS"),
     "clang-o2": ("clang++", "-std=c++17 -O2"),
+    "clang-fuzz": ("clang++", "-std=c++17 -O1 -g -fno-omit-frame-pointer -fsanitize=fuzzer,address,undefined -fno-sanitize=object-size "
+                              "-fno-sanitize-recover=all -D_GLIBCXX_ASSERTIONS"),
     "tsan": ("g++", "-std=c++17 -O1 -g -fno-omit-frame-pointer -fsanitize=thread -pthread"),
     "clang-tsan": ("clang++", "-std=c++17 -O1 -g -fno-omit-frame-pointer -fsanitize=thread -pthread"),
 }
